@@ -69,11 +69,14 @@ pub fn is_valid_input_value(
                 return None;
             }
 
-            match registry
-                .types
-                .get(type_name)
-                .unwrap_or_else(|| panic!("Type `{}` not defined", type_name))
-            {
+            // an unknown type name is reported by the KnownTypeNames rule
+            let Some(ty) = registry.types.get(type_name) else {
+                return Some(valid_error(
+                    &path_node,
+                    format!("unknown type \"{}\"", type_name),
+                ));
+            };
+            match ty {
                 registry::MetaType::Scalar {
                     is_valid: Some(is_valid_fn),
                     ..
